@@ -58,10 +58,29 @@ impl EditConnectionCostPlugin for InhibitConnectionPlugin {
         &mut self,
         settings: &Value,
         _config: &Config,
-        _grammar: &Grammar,
+        grammar: &Grammar,
     ) -> SudachiResult<()> {
         let settings: PluginSettings = serde_json::from_value(settings.clone())?;
         let inhibit_pairs = settings.inhibitPair;
+        let matrix = grammar.conn_matrix();
+        for (left, right) in inhibit_pairs.iter() {
+            if *left < 0
+                || *right < 0
+                || *left as usize >= matrix.num_left()
+                || *right as usize >= matrix.num_right()
+            {
+                return Err(SudachiError::InvalidDataFormat(
+                    0,
+                    format!(
+                        "inhibitPair [{}, {}] is outside of the connection matrix ({} x {})",
+                        left,
+                        right,
+                        matrix.num_left(),
+                        matrix.num_right()
+                    ),
+                ));
+            }
+        }
         self.inhibit_pairs = inhibit_pairs;
         Ok(())
     }
